@@ -197,7 +197,7 @@ def cases(draw):
     if r in (0, 1):
         last = max([x for t in spec["tiers"] for e in t["entries"] for x in e[:-1]] + [spec["minT"]])
         opts = [spec["maxT"], spec["maxT"] + 1.0, spec["maxT"] * 2 + 0.5]
-        if clean and spec["maxT"] - last > 1e-3:
+        if clean and spec["maxT"] - last > 1e-3 + 1e-12 * spec["maxT"]:  # (far enough apart to survive the number rounding C01 allows)
             opts += [(last + spec["maxT"]) / 2] * 2  # shorter than the textgrid, yet beyond every entry
         case["max_override"] = draw(st.sampled_from(opts))
         if case["max_override"] < spec["maxT"] and not (case["max_override"] > last + 1e-6):
